@@ -279,6 +279,7 @@ def handle (j : Json) : Except String Json := do
   | "denorm_rows" => NormDrv.handle op j
   | "synth_encode" => SynthDrv.handle op j
   | "synth_decode" => SynthDrv.handle op j
+  | "synth_circuit" => SynthDrv.handle op j
   | "optable_issues" => pure (ok (jStrs opTableIssues))
   | "check_wf" => do
     let c ← getCircuit j
